@@ -27,8 +27,20 @@ pub fn run_model_threads<F: Fam>(ctx: &Ctx, prop: &'static str, label: &str, str
     }
     let n = streams.len();
     let stats = Arc::new(Stats::default());
-    let model: PollModel<F> = PollModel { prop, streams: Arc::new(streams), r, all_k_below, max_dev, faults, stats: stats.clone(), _f: PhantomData };
+    let streams = Arc::new(streams);
+    let streams_again = streams.clone();
+    let model: PollModel<F> = PollModel { prop, streams, r, all_k_below, max_dev, faults, stats: stats.clone(), _f: PhantomData };
     let res = e1::explore(model, threads);
+    if ctx.thorough() && label != "replay" && label != "miri" {
+        // determinism: the same model explored again must have the same number of unique states
+        let stats2 = Arc::new(Stats::default());
+        let again: PollModel<F> = PollModel { prop, streams: streams_again, r, all_k_below, max_dev, faults, stats: stats2, _f: PhantomData };
+        let res2 = e1::explore(again, threads);
+        if res2.unique_states != res.unique_states {
+            ctx.info("machinery_error", json!(format!("E1 {label}: two explorations of the same model differ ({} vs {} unique states) - nondeterminism", res.unique_states, res2.unique_states)));
+        }
+        ctx.count(&format!("{}_{label}_second_run_unique_states", F::NAME), res2.unique_states);
+    }
     ctx.state(res.unique_states);
     ctx.trans(stats.transitions.load(Relaxed));
     ctx.trace(stats.done_ok.load(Relaxed) + stats.finished_err.load(Relaxed));
@@ -121,6 +133,9 @@ pub fn c05(ctx: &Ctx) {
         let frames = sweeps::small_frames(f, max_len);
         let wf: Vec<Stream> = frames.iter().map(|b| Stream::single(b, "wellformed")).collect();
         run_model::<F>(ctx, "C05", "wellformed", wf, r, allk, 3, true);
+        // three transport answers per poll for the shortest frames
+        let tiny3: Vec<Stream> = frames.iter().filter(|b| b.len() <= 9).map(|b| Stream::single(b, "wellformed-r3")).collect();
+        run_model::<F>(ctx, "C05", "tiny_r3", tiny3, 3, 24, 3, true);
         let mal = mal_frames(f, max_len, if ctx.thorough() { 3 } else { 23 });
         let ms: Vec<Stream> = mal.iter().map(|b| Stream::single(b, "malformed")).collect();
         run_model::<F>(ctx, "C05", "malformed", ms, r.min(2), if ctx.thorough() { allk } else { 10 }, 3, true);
